@@ -111,6 +111,14 @@ class BoundMethod(object):
         return "<Bound %r of %r>" % (self.fn, self.self_obj)
 
 
+class SuperObj(object):
+    """super(cls, obj): attribute lookup continues after `cls` in obj's MRO"""
+
+    def __init__(self, cls, obj):
+        self.cls = cls
+        self.obj = obj
+
+
 class ModelFn(object):
     """A trusted model: python callable (interp, args, kwargs) -> value."""
 
@@ -374,12 +382,27 @@ class Interp(object):
         return raw
 
     def get_attr(self, obj, name, where=None):
+        if isinstance(obj, SuperObj):
+            mro = obj.obj.cls.__mro__
+            idx = mro.index(obj.cls)
+            for k in mro[idx + 1:]:
+                if name in k.__dict__:
+                    raw = k.__dict__[name]
+                    if type(raw).__name__ == "_ProxyDescriptor":
+                        return self.get_attr(self.get_attr(obj.obj, raw.originalAttribute), raw.attributeName)
+                    if isinstance(raw, property):
+                        return self.call_value(BoundMethod(raw.fget, obj.obj), [], {})
+                    return self.bind(raw, obj.obj)
+            raise PyRaise(AttributeError(name), AttributeError)
         if isinstance(obj, SObj):
             if name == "__class__":
                 return obj.cls
             raw = self.class_attr(obj.cls, name)
             if isinstance(raw, property):
                 return self.call_value(BoundMethod(raw.fget, obj), [], {})
+            if type(raw).__name__ == "_ProxyDescriptor" and name not in obj.fields:
+                # twisted.python.components.proxyForInterface: forward to the wrapped object
+                return self.get_attr(self.get_attr(obj, raw.originalAttribute), raw.attributeName)
             if name in obj.fields:
                 return obj.fields[name]
             if raw is not None and not isinstance(raw, (types.FunctionType, staticmethod, classmethod, property)):
@@ -457,6 +480,11 @@ class Interp(object):
             return fn.fn(self, list(args), kwargs)
         if isinstance(fn, Opaque):
             return self.opaque_call(fn, args, kwargs)
+        if type(fn).__name__ == "_ProxiedClassMethod":
+            original = self.get_attr(args[0], fn.originalAttribute)
+            return self.call_value(self.get_attr(original, fn.methodName), list(args[1:]), kwargs)
+        if isinstance(fn, SuperObj):
+            raise Undecided("call of super object")
         if isinstance(fn, SObj):
             callf = self.class_attr(fn.cls, "__call__")
             if callf is not None:
